@@ -5,6 +5,7 @@ capabilities using the full 657-color table from r2rtf.
 """
 
 from collections.abc import Mapping, Sequence
+from contextvars import ContextVar
 from typing import Any
 
 from rtflite.dictionary.color_table import (
@@ -30,9 +31,20 @@ class ColorService:
         self._name_to_type = name_to_type
         self._name_to_rgb = name_to_rgb
         self._name_to_rtf = name_to_rtf
-        self._current_document_colors = (
-            None  # Context for current document being encoded
+        # Context for the document currently being encoded. It is context-local
+        # so that documents encoded concurrently on other threads (or tasks)
+        # cannot see or overwrite each other's colour table.
+        self._document_colors_var: ContextVar[Sequence[str] | None] = ContextVar(
+            "rtflite_document_colors", default=None
         )
+
+    @property
+    def _current_document_colors(self) -> Sequence[str] | None:
+        return self._document_colors_var.get()
+
+    @_current_document_colors.setter
+    def _current_document_colors(self, used_colors: Sequence[str] | None) -> None:
+        self._document_colors_var.set(used_colors)
 
     def validate_color(self, color: str) -> bool:
         """Validate if a color name exists in the color table.
